@@ -66,6 +66,7 @@ type Program struct {
 	H       []Step `json:"h"`
 	Attach  int    `json:"attach"`  // tick at which a follower is started, -1: none
 	Jitter  int    `json:"jitter"`  // ms slept before the program starts (phase against the sweeper)
+	Unit    int    `json:"unit"`    // real milliseconds per tick of this program (0: the default of the run)
 	Restart bool   `json:"restart"` // restart a server from a copy of the data directory at the end
 }
 
@@ -412,6 +413,10 @@ func Run(p *Program, o Options) (*Result, error) {
 	r := &runner{p: p, o: o, begin: map[int]int64{}, marks: map[string]int{}, roles: map[int]int{}, table: map[string]absCmd{}}
 	res := &Result{Sc: p.Sc, Tag: p.Tag, ProbeBad: []string{}, Follower: p.Attach >= 0}
 	u := p.universe()
+	if p.Unit > 0 {
+		o.UnitMs = p.Unit
+	}
+	r.o = o
 	unit := time.Duration(o.UnitMs) * time.Millisecond
 	dir := filepath.Join(o.Dir, fmt.Sprintf("sc%d", p.Sc))
 	// the hook must be installed for the port before the server starts, so the port is chosen here; another process
